@@ -294,6 +294,17 @@ class ModuleV:
         return f"<module {self.name}>"
 
 
+class UnmodelledV:
+    """A library object the engine has no model of (an attribute of an unmodelled standard-library module, or what calling it
+    returned).  It may be bound to names and passed around - e.g. created at import time - but any use of it (attribute,
+    subscript, truth value, comparison, iteration, membership) makes the obligation undecided."""
+    def __init__(self, name):
+        self.name = name
+
+    def __repr__(self):
+        return f"<unmodelled {self.name}>"
+
+
 class Dummy:
     """Inert placeholder (typing constructs, logging, ...): attribute access, subscription and
     calls all return a Dummy."""
